@@ -292,7 +292,8 @@ func srtRenderDoc(cs []srtCue, o srtRender, r *fw.Rand) []byte {
 		arrow := []string{" --> ", "-->", "\t-->\t", "  -->  ", " -->"}[o.arrow]
 		b.WriteString(srtFmtTime(c.Start, o) + arrow + srtFmtTime(c.End, o))
 		if o.coords {
-			b.WriteString("  X1:100 X2:200 Y1:050 Y2:100")
+			// the coordinates follow after blanks and/or tabs
+			b.WriteString([]string{"  ", " ", "\t", " \t ", "\t\t"}[fw.Mix(o.idxMix, uint64(k), 0xc0)%5] + "X1:100 X2:200 Y1:050 Y2:100")
 		}
 		b.WriteString(o.eol)
 		var stack []srtTag
